@@ -708,6 +708,43 @@ func ruleBuiltins(w *World, r *Report, ro *roles) {
 			}
 			return
 		}})
+	// no answer before the built-in test: a table consulted first (scope-local values, an override
+	// map) could hand out another context, scope or provider for the reserved types
+	// (a request that arrives with its descriptor already found - a registered service - skips the
+	// built-in test legitimately: "descriptor-known")
+	known := tfl.Solve(Spec{Must: true,
+		Node: func(nd ast.Node, in Facts) (gen, kill []string) {
+			for _, c := range callsIn(nd, false) {
+				if cal := callee(tinfo, c); w.IsFn(cal, w.Godi, "(*provider).findDescriptor") {
+					gen = append(gen, "descriptor-known")
+				}
+			}
+			return
+		},
+		Edge: func(b *cfg.Block, i int, cond ast.Expr, in Facts) (gen, kill []string) {
+			be, ok := unparen(cond).(*ast.BinaryExpr)
+			if cond == nil || !ok || (be.Op != token.EQL && be.Op != token.NEQ) {
+				return
+			}
+			for _, pair := range [][2]ast.Expr{{be.X, be.Y}, {be.Y, be.X}} {
+				if o := objOf(tinfo, pair[0]); o != nil && isNilIdent(tinfo, pair[1]) {
+					if pt, isP := o.Type().(*types.Pointer); isP && isNamedType(pt.Elem(), modPath, "Descriptor") && isParamOf(top, tinfo, o) {
+						if (be.Op == token.NEQ) == (i == 0) {
+							gen = append(gen, "descriptor-known")
+						}
+					}
+				}
+			}
+			return
+		}})
+	for _, ex := range tfl.Exits() {
+		if ex.Ret == nil || len(ex.Ret.Results) != 2 || !isNilIdent(tinfo, ex.Ret.Results[1]) || isNilIdent(tinfo, ex.Ret.Results[0]) {
+			continue
+		}
+		if !bsol.AtExit(ex).Has("builtins-checked") && !known.AtExit(ex).Has("descriptor-known") {
+			r.Fail("R18.1", top.Name()+"#answer-before-builtins", ex.Pos, "resolution can answer (return %s, nil) before the built-in test has been evaluated: a value from another source is served for context.Context, Scope or Provider", exprStr(ex.Ret.Results[0]))
+		}
+	}
 	n := 0
 	for _, nd := range tfl.Nodes() {
 		for _, c := range callsIn(nd, false) {
